@@ -571,7 +571,8 @@ let () = register "hostile" (fun args ->
   let oracle =
     if L.length args < 2 then "-" else
     let impl = S.split_on_char '|' (L.nth args 1) in
-    if L.mem "panic" impl then "bad:panic" else if L.mem "hang" impl then "bad:hang" else "ok" in
+    if L.mem "panic" impl then "bad:panic" else if L.mem "hang" impl then "bad:hang"
+    else if L.exists (fun p -> S.length p > 5 && S.sub p 0 5 = "alloc") impl then "bad:alloc" else "ok" in
   (S.concat "|" parts, oracle))
 
 (* ---- stack protocol traces: C04 C05 C06 C08 C09 C10 C16 ---- *)
